@@ -498,21 +498,8 @@ pub fn run_c11(ctx: &mut Ctx) -> RunResult {
     };
     let mut input = vec![3u8];
     input.extend_from_slice(&peer_p1);
-    let (own_p0p1, p2): (Vec<u8>, Vec<u8>) = if lazy {
-        match hs.process_bytes(&input) {
-            Ok(HandshakeProcessResult::InProgress { response_bytes }) if response_bytes.len() == 1 + 2 * PKT => {
-                (response_bytes[..1 + PKT].to_vec(), response_bytes[1 + PKT..].to_vec())
-            }
-            other => {
-                return Err(Violation::new(
-                    "C11/handshake/unexpected-result",
-                    format!("process_bytes(p0+p1) did not return 3073 response bytes in progress: {:?}", other.map(|r| match r {
-                        HandshakeProcessResult::InProgress { response_bytes } => format!("InProgress({})", response_bytes.len()),
-                        HandshakeProcessResult::Completed { response_bytes, .. } => format!("Completed({})", response_bytes.len()),
-                    })),
-                ))
-            }
-        }
+    let pre: Vec<u8> = if lazy {
+        Vec::new()
     } else {
         let a = match hs.generate_outbound_p0_and_p1() {
             Ok(b) => b,
@@ -528,16 +515,17 @@ pub fn run_c11(ctx: &mut Ctx) -> RunResult {
                 input.extend_from_slice(&reflected);
             }
         }
-        match hs.process_bytes(&input) {
-            Ok(HandshakeProcessResult::InProgress { response_bytes }) if response_bytes.len() == PKT => (a, response_bytes),
-            other => {
-                return Err(Violation::new(
-                    "C11/handshake/unexpected-result",
-                    format!("process_bytes(p0+p1) did not return a 1536-byte packet 2: {:?}", other.is_ok()),
-                ))
-            }
-        }
+        a
     };
+    let peer_role = role.other();
+    let acc = drive_c11(ctx, &mut hs, pre, &input, &|own_p1: &[u8]| rh::make_p2(peer_role, own_p1, peer_seed))?;
+    if acc.len() < 1 + 2 * PKT {
+        // nothing (complete) was generated, so there is nothing for C11 to judge; whether the
+        // exchange makes progress is C05's question
+        ctx.probe("c11.incomplete_output");
+        return Ok(());
+    }
+    let (own_p0p1, p2): (Vec<u8>, Vec<u8>) = (acc[..1 + PKT].to_vec(), acc[1 + PKT..1 + 2 * PKT].to_vec());
     ctx.ev_bytes(80, &own_p0p1);
     ctx.ev_bytes(81, &p2);
     // oracle 1: own packet 1 carries a valid digest for its role at a position peers probe
@@ -599,24 +587,98 @@ pub fn run_c11(ctx: &mut Ctx) -> RunResult {
     };
     let mut input2 = vec![3u8];
     input2.extend_from_slice(&plain);
-    match hs2.process_bytes(&input2) {
-        Ok(HandshakeProcessResult::InProgress { response_bytes }) if response_bytes.len() == 1 + 2 * PKT => {
-            if response_bytes[1 + PKT..] != plain[..] {
-                return Err(Violation::new(
-                    "C11/p2/not-an-echo",
-                    "packet 2 in answer to a digest-less packet 1 is not an exact echo of it",
-                ));
-            }
-            ctx.probe("c11.digestless_echo_checked");
+    let pre2 = if ctx.ch.chance("op.kind", 1, 2) {
+        Vec::new()
+    } else {
+        match hs2.generate_outbound_p0_and_p1() {
+            Ok(b) => b,
+            Err(e) => return Err(Violation::new("C11/handshake/error", format!("{:?}", e))),
         }
-        _ => {
-            return Err(Violation::new(
-                "C11/handshake/unexpected-result",
-                "process_bytes(p0 + digest-less p1) did not return 3073 response bytes",
-            ))
+    };
+    // an original-handshake peer answers with an echo of our packet 1
+    let acc2 = drive_c11(ctx, &mut hs2, pre2, &input2, &|own_p1: &[u8]| own_p1.to_vec())?;
+    if acc2.len() < 1 + 2 * PKT {
+        ctx.probe("c11.incomplete_output");
+        return Ok(());
+    }
+    if acc2[1 + PKT..1 + 2 * PKT] != plain[..] {
+        return Err(Violation::new(
+            "C11/p2/not-an-echo",
+            "packet 2 in answer to a digest-less packet 1 is not an exact echo of it",
+        ));
+    }
+    ctx.probe("c11.digestless_echo_checked");
+    Ok(())
+}
+
+/// Drive a real handshake instance against a scripted peer for C11.  `pre` is what the instance
+/// already emitted (generate_outbound_p0_and_p1, or nothing); `peer_p0p1` is the peer's version
+/// byte and packet 1.  As soon as the instance's own packet 1 is known the peer's packet 2
+/// (`make_p2(own packet 1)`) and some trailing bytes are queued behind it -- so when the instance
+/// spoke first, everything may arrive in one call, and packet 1 is parsed with later bytes already
+/// buffered.  The queue is delivered under a drawn segmentation.  Returns all emitted bytes, in
+/// order.  When and in which call the instance emits its packets is not prescribed here.
+fn drive_c11(ctx: &mut Ctx, hs: &mut Handshake, pre: Vec<u8>, peer_p0p1: &[u8], make_p2: &dyn Fn(&[u8]) -> Vec<u8>) -> Result<Vec<u8>, Violation> {
+    let mut acc = pre;
+    let mut queue: Vec<u8> = peer_p0p1.to_vec();
+    let mut p2_queued = false;
+    let seg_kind = ctx.ch.weighted("seg.mode", &[4, 2, 2, 2, 2]);
+    let mut head = 0usize;
+    let mut calls = 0u32;
+    let mut completed = false;
+    loop {
+        if !p2_queued && acc.len() >= 1 + PKT {
+            let p2 = make_p2(&acc[1..1 + PKT]);
+            queue.extend_from_slice(&p2);
+            queue.extend_from_slice(&draw_trailing(ctx));
+            p2_queued = true;
+        }
+        if completed || head >= queue.len() || calls > 8000 {
+            break;
+        }
+        let left = queue.len() - head;
+        let n = match seg_kind {
+            0 => left,
+            1 => {
+                // packet by packet
+                let boundary = [1usize, 1 + PKT, 1 + 2 * PKT];
+                boundary.iter().find(|b| **b > head).map(|b| *b - head).unwrap_or(left).min(left)
+            }
+            2 => (1 + ctx.ch.draw("seg.size", 1600) as usize).min(left),
+            3 => {
+                if head < 24 || (head >= PKT - 8 && head < PKT + 24) {
+                    1
+                } else {
+                    (1 + ctx.ch.draw("seg.size", 3000) as usize).min(left)
+                }
+            }
+            _ => (1000 + ctx.ch.draw("seg.size", 2500) as usize).min(left),
+        };
+        let seg = &queue[head..head + n];
+        if head < 1 + PKT && head + n > 1 + PKT {
+            ctx.probe("c11.p1_parsed_with_later_bytes_buffered");
+        }
+        head += n;
+        calls += 1;
+        ctx.sched(1, seg_kind as u64, Ctx::bucket_len(n));
+        match hs.process_bytes(seg) {
+            Ok(HandshakeProcessResult::InProgress { response_bytes }) => acc.extend_from_slice(&response_bytes),
+            Ok(HandshakeProcessResult::Completed { response_bytes, .. }) => {
+                acc.extend_from_slice(&response_bytes);
+                completed = true;
+            }
+            Err(e) => {
+                return Err(Violation::new(
+                    "C11/handshake/error",
+                    format!("process_bytes failed after {} of {} peer bytes: {:?}", head, queue.len(), e),
+                ))
+            }
         }
     }
-    Ok(())
+    if completed {
+        ctx.probe("c11.handshake_completed");
+    }
+    Ok(acc)
 }
 
 // ---------------------------------------------------------------------------------------------
